@@ -181,7 +181,7 @@ func c13Body(c *mc.Ctx, media, scheme string, maxN int) {
 		c.Cover("value:" + values[(i*3+vrot)%len(values)].name)
 	}
 	spec := newEnvSpec(media, cont, "p256-e")
-	extra := c.Choose("crit-extra", 6)
+	extra := c.Choose("crit-extra", 10)
 	mustReject, recorded := false, false
 	switch extra {
 	case 4:
@@ -213,6 +213,29 @@ func c13Body(c *mc.Ctx, media, scheme string, maxN int) {
 			spec.crit = append(spec.crit, "cty")
 		}
 		recorded = true
+	case 6, 7, 8, 9:
+		// other specification-defined labels named in crit although they need not be: the algorithm, crit itself, the signing-time
+		// header of the scheme, the scheme label a second time. Whether such an envelope is accepted is not C13's subject; if it is,
+		// the specification headers still never appear among the extended attributes.
+		var l any
+		switch {
+		case extra == 6 && media == envenc.MediaCOSE:
+			l = int64(1)
+		case extra == 6:
+			l = "alg"
+		case extra == 7 && media == envenc.MediaCOSE:
+			l = int64(2)
+		case extra == 7:
+			l = "crit"
+		case extra == 8 && scheme == envenc.SchemeX509:
+			l = envenc.HdrSigningTime
+		case extra == 8:
+			l = envenc.HdrAuthTime // already required critical under this scheme: named twice
+		default:
+			l = envenc.HdrScheme
+		}
+		spec.crit = append(spec.crit, l)
+		recorded = true
 	}
 	env, _, _, valid := spec.encode(nil, "")
 	if !valid {
@@ -242,6 +265,13 @@ func c13Body(c *mc.Ctx, media, scheme string, maxN int) {
 		return
 	}
 	if recorded {
+		// acceptance is not judged; what an accepted envelope reports is
+		if vok {
+			c13Compare(c, media, cont, vc)
+		}
+		if cok {
+			c13Compare(c, media, cont, cc)
+		}
 		return
 	}
 	if !vok || !cok {
